@@ -5,6 +5,8 @@
 // (exactly), calls the routine through its documented interface only and converts what the callbacks received
 // back to model integers.  +infinity is vf::INF_CODE.
 #pragma once
+#include <limits>
+#include <algorithm>
 #include "common.hpp"
 
 #include <gudhi/Persistence_on_a_line.h>
@@ -132,15 +134,25 @@ inline Run run_line(const std::string& variant, const std::vector<int>& vals) {
 // ------------------------------------------------------------------------------------------- rectangle
 inline const std::vector<std::string>& rect_variants() {
   static const std::vector<std::string> v{"val_double_size_t", "val_double_unsigned", "val_int_int", "val_float_long_affine",
-                                          "idx_double_size_t", "idx_int_unsigned", "idx_float_int_affine"};
+                                          "idx_double_size_t", "idx_int_unsigned", "idx_float_int_affine",
+                                          "val_double_size_t_dblmax", "val_double_unsigned_inf", "val_int_int_intmax",
+                                          "idx_double_size_t_inf", "idx_float_int_fltmax"};
   return v;
 }
 inline bool is_index_variant(const std::string& v) { return v.rfind("idx_", 0) == 0; }
 
+// top: 0 = the values as they are (affine image), 1 = the largest value of the input replaced by the largest finite
+// value of the type, 2 = by +infinity (an order preserving relabelling: the pairs are relabelled in the same way)
 template <bool idx, class F, class I>
-inline void run_rect_t(Run& r, int rows, int cols, const std::vector<int>& vals, int a, int b) {
+inline void run_rect_t(Run& r, int rows, int cols, const std::vector<int>& vals, int a, int b, int top = 0) {
   std::vector<F> in;
-  for (int v : vals) in.push_back(static_cast<F>(a * v + b));
+  int vmax = vals.empty() ? 0 : *std::max_element(vals.begin(), vals.end());
+  const F TOP = top == 2 ? std::numeric_limits<F>::infinity() : std::numeric_limits<F>::max();
+  for (int v : vals) in.push_back(top != 0 && v == vmax ? TOP : static_cast<F>(a * v + b));
+  auto back = [&](F x, int aa, int bb, Run& rr, const char* what) -> std::int64_t {
+    if (top != 0 && x == TOP) return vmax;
+    return lstar::back(x, aa, bb, rr, what);
+  };
   const F* p = in.data();
   if constexpr (idx) {
     auto o0 = [&](I x, I y) { r.out0.emplace_back(static_cast<std::int64_t>(x), static_cast<std::int64_t>(y)); };
@@ -167,6 +179,11 @@ inline Run run_rect(const std::string& variant, int rows, int cols, const std::v
     else if (variant == "idx_double_size_t") run_rect_t<true, double, std::size_t>(r, rows, cols, vals, 1, 0);
     else if (variant == "idx_int_unsigned") run_rect_t<true, int, unsigned>(r, rows, cols, vals, 1, 0);
     else if (variant == "idx_float_int_affine") run_rect_t<true, float, int>(r, rows, cols, vals, 2, -7);
+    else if (variant == "val_double_size_t_dblmax") run_rect_t<false, double, std::size_t>(r, rows, cols, vals, 1, 0, 1);
+    else if (variant == "val_double_unsigned_inf") run_rect_t<false, double, unsigned>(r, rows, cols, vals, 1, 0, 2);
+    else if (variant == "val_int_int_intmax") run_rect_t<false, int, int>(r, rows, cols, vals, 1, 0, 1);
+    else if (variant == "idx_double_size_t_inf") run_rect_t<true, double, std::size_t>(r, rows, cols, vals, 1, 0, 2);
+    else if (variant == "idx_float_int_fltmax") run_rect_t<true, float, int>(r, rows, cols, vals, 2, -7, 1);
     else r.exception = "unknown variant " + variant;
   } catch (const std::exception& e) {
     r.exception = e.what();
